@@ -405,3 +405,50 @@ pub fn per_element_cases(expr: crate::gen::VS, element: crate::gen::VS) -> propt
     use proptest::strategy::Strategy;
     (expr, proptest::collection::vec(element, 2..=5)).prop_map(|(e, xs)| json!({"expr": e, "elements": xs})).boxed()
 }
+
+// ------------------------------------------------------------------------------------------------ size boundaries
+
+/// Lengths around the powers of two at which a narrowed length type, a fixed buffer or a block size would bite.
+pub const SIZE_EDGES: &[usize] = &[255, 256, 257, 4095, 4096, 4097, 65535, 65536, 65537];
+
+/// a string of exactly n characters mixing 1-, 2-, 3- and 4-byte characters by position, ending in "Z"
+pub fn sized_string(n: usize) -> String {
+    let mut s = String::with_capacity(n * 2);
+    for i in 0..n.saturating_sub(1) {
+        s.push(match i % 7 {
+            0 => 'a',
+            1 => 'é',
+            2 => 'b',
+            3 => '日',
+            4 => 'c',
+            5 => '😀',
+            _ => 'd',
+        });
+    }
+    if n > 0 {
+        s.push('Z');
+    }
+    s
+}
+
+/// an array of n small integers 0, 1, 2, ... (mod 97), the last one being 1000
+pub fn sized_array(n: usize) -> Value {
+    let mut v: Vec<Value> = (0..n.saturating_sub(1)).map(|i| json!(i % 97)).collect();
+    if n > 0 {
+        v.push(json!(1000));
+    }
+    Value::Array(v)
+}
+
+/// One (rule, data) of a size-boundary family against the reference model; a case the model finds over budget would
+/// silently test nothing, so that is reported as a broken oracle.
+pub fn size_case(rule: &Value, data: &Value, obs: &mut Obs, what: &str) -> Result<(), String> {
+    let d = diff(rule, data, obs, TraceMode::None)?;
+    match d.model {
+        Res::Unspec(z) => Err(format!("oracle_broken: size-boundary case {} is not decided by the model ({})", what, z)),
+        _ => {
+            obs.nt(what);
+            Ok(())
+        }
+    }
+}
